@@ -15,8 +15,8 @@ git diff --cached "$BASE" -- src Cargo.toml > patch.diff
 [ -s patch.diff ] || { echo "REJECTED:empty patch"; exit 1; }
 [ -f tests/seeded_demo.rs ] || { echo "REJECTED:no tests/seeded_demo.rs"; exit 1; }
 # tests/ other than the demo must be untouched
-if git diff --cached --name-only "$BASE" | grep -v '^src/\|^tests/seeded_demo.rs$\|^patch.diff$\|^Cargo.lock$' | grep -q .; then
-  echo "REJECTED:touches $(git diff --cached --name-only "$BASE" | grep -v '^src/\|^tests/seeded_demo.rs$\|^patch.diff$' | tr '\n' ' ')"; exit 1; fi
+if git diff --cached --name-only "$BASE" | grep -v '^src/\|^tests/seeded_demo.rs$\|\.patch$\|\.diff$\|\.log$\|^agent_meta.txt$\|^Cargo.lock$' | grep -q .; then
+  echo "REJECTED:touches $(git diff --cached --name-only "$BASE" | grep -v '^src/\|^tests/seeded_demo.rs$\|\.patch$\|\.diff$\|\.log$\|^agent_meta.txt$' | tr '\n' ' ')"; exit 1; fi
 # with the change
 if cargo test --offline --test seeded_demo >demo_with.log 2>&1; then echo "REJECTED:demo passes with the change"; exit 1; fi
 grep -q 'test result: FAILED\|panicked' demo_with.log || { echo "REJECTED:demo did not run (build error?)"; tail -5 demo_with.log; exit 1; }
